@@ -74,6 +74,30 @@ def c02_void():
     return VOID
 
 
+def build_block_late(AHP, b, late_edits):
+    """`build_block` for the `late` variant: the last plain attribute (valid, not duplicated, not class/style/boolean) of an
+    element is left out at construction and recorded in `late_edits`; it is set after the document was serialised once."""
+    if b[0] == 't':
+        return b[1]
+    from .c02 import BOOLEAN
+    attrs = [tuple(a) for a in b[2]]
+    keys = [a[0].lower() for a in attrs]
+    pick = None
+    for j in range(len(attrs) - 1, -1, -1):
+        k, v = attrs[j]
+        kl = k.lower()
+        if (keys.count(kl) == 1 and isinstance(v, str) and v != '' and kl not in BOOLEAN and kl not in ('class', 'style', 'spellcheck')
+                and kl.replace('-', '').isalnum() and kl[:1].isalpha()):
+            pick = j
+            break
+    el = AHP.AdvancedTag(b[1], [a for j, a in enumerate(attrs) if j != pick], bool(b[3]))
+    if pick is not None:
+        late_edits.append((el, attrs[pick][0], attrs[pick][1]))
+    for k in b[4]:
+        el.appendBlock(build_block_late(AHP, k, late_edits))
+    return el
+
+
 def build_block_edited(AHP, b, later):
     """`build_block` for the `edited` variant: plain attributes, class and style start with *other* values; `later`
     collects the in-place edits (setAttribute, removeClass, style.setProperty) that lead to the values of `b`. The edits
@@ -126,6 +150,9 @@ def build_doc(d):
     blocks = d['blocks']
     later = []
     mk = (lambda b: build_block_edited(AHP, b, later)) if d.get('via') == 'edited' else (lambda b: build_block(AHP, b, bool(d.get('create'))))
+    late_edits = []
+    if d.get('late'):
+        mk = lambda b: build_block_late(AHP, b, late_edits)
     if len(blocks) == 1 and blocks[0][0] == 'e':
         root = mk(blocks[0])
     else:
@@ -135,6 +162,12 @@ def build_doc(d):
     p.setRoot(root)
     if d.get('doctype'):
         p.setDoctype(d['doctype'])
+    if d.get('late'):
+        # an attribute is ADDED after the document was looked at: every element with a class and another plain attribute
+        # was built without its last plain attribute; the look materialises what it materialises, then the attribute arrives
+        p.getHTML()
+        for el, k, v in late_edits:
+            el.setAttribute(k, v)
     if d.get('via') == 'edited':
         p.getHTML()
         for el in all_elements(root):
@@ -187,6 +220,37 @@ def all_elements(root):
     for c in root.children:
         out.extend(all_elements(c))
     return out
+
+
+def class_before_other(toks):
+    """Recognised on the first serialisation alone: some start tag lists `class` before another attribute."""
+    for t in toks:
+        if t[0] in ('start', 'startend'):
+            names = [a[0] for a in t[2]]
+            if 'class' in names and names.index('class') != len(names) - 1:
+                return True
+    return False
+
+
+def class_last(t):
+    """py_tree with the class attribute of every element moved to the end of its list (nothing else touched)."""
+    if t[0] == 't':
+        return t
+    attrs = [a for a in t[2] if a[0] != 'class'] + [a for a in t[2] if a[0] == 'class']
+    return (t[0], t[1], attrs, t[3], [class_last(k) for k in t[4]])
+
+
+def same_tokens_up_to_class_position(a, b):
+    if len(a) != len(b):
+        return False
+    for x, y in zip(a, b):
+        if x[0] in ('start', 'startend') and y[0] == x[0]:
+            mv = lambda l: [list(p) for p in l if p[0] != 'class'] + [list(p) for p in l if p[0] == 'class']
+            if x[1] != y[1] or mv(x[2]) != mv(y[2]):
+                return False
+        elif list(x) != list(y):
+            return False
+    return True
 
 
 def same_tree(a, b):
@@ -283,6 +347,8 @@ class Check(PropCheck):
                 d['create'] = True      # attribute-less elements come from document.createElement(NAME)
             if i % 7 == 3:
                 d['enc'] = ('ascii', 'iso-8859-1', 'utf-16')[(i // 7) % 3]      # a parser constructed for another byte encoding
+            if i % 8 == 5 and d['via'] == 'api' and not d.get('create'):
+                d['late'] = True        # the last plain attribute of every element is set after the document was serialised once
             yield Case(d, 'random')
         # the strict lexer against the real tokenizer on richly rendered token sequences (C02's renderer) and on
         # corrupted variants (on which lexStrict may answer none, never a different token list)
@@ -489,9 +555,9 @@ class Check(PropCheck):
         if d['via'] == 'lex':
             return sx('lex', enc(d['text']))
         dd = d
-        if d['via'] == 'parse':
+        if d['via'] == 'parse' or d.get('late'):
             # the model is given the tree the library obtained from the parse (its own check of that parse is the
-            # `api` variant of the same document)
+            # `api` variant of the same document) / the tree the history left (attribute order as the library lists it)
             p = self.doc_of(d)
             root = p.getRoot()
             t = parsing.py_tree(root)
@@ -533,6 +599,13 @@ class Check(PropCheck):
             m, i = parse_sx(model_out), parse_sx(impl_out)
         except Exception:
             return 'unparsable output: model=%s impl=%s' % (model_out[:300], impl_out[:300])
+        if d.get('late') and m[0] != i[0] and class_before_other(parsing.tokenize(self.doc_of(d).getHTML())):
+            # the history left `class` before a later attribute: the model's trees keep class where the constructor puts it
+            # (last), so it is given the normal form of this tree and only what the re-parse builds is compared — the
+            # position itself is what the oracle judges (recorded finding C01-class-position-after-look)
+            if m[3] != i[3]:
+                return 're-parse (tree with class before another attribute): model %s impl %s' % (str(m[3])[:300], str(i[3])[:300])
+            return None
         if m[0] != i[0]:
             return 'getHTML: model %s impl %s' % (m[0][:300], i[0][:300])
         if m[1] != i[1]:
@@ -587,6 +660,9 @@ class Check(PropCheck):
             # outside the domain (property text): the white space that follows the doctype of a multi-root document
             t1, t2 = strip_lead(t1), strip_lead(t2)
         if not same_tree(t1, t2):
+            if class_before_other(parsing.tokenize(html)) and same_tree(class_last(t1), class_last(t2)):
+                return ('class-position', 'the first serialisation lists class before another attribute, the re-parsed tree lists '
+                        'class last: %r -> %r' % (html, p2.getHTML()))
             return ('tree', 'round trip changed the tree: %r -> %r (html=%r)' % (t1, t2, html))
         if (p.doctype or None) != (p2.doctype or None):
             return ('doctype', 'doctype %r -> %r' % (p.doctype, p2.doctype))
@@ -612,6 +688,9 @@ class Check(PropCheck):
         if multi_dt:
             html, html2 = strip_after_doctype(html), strip_after_doctype(html2)
         if html2 != html:
+            if class_before_other(parsing.tokenize(html)) and same_tokens_up_to_class_position(parsing.tokenize(html), parsing.tokenize(html2)):
+                return ('class-position', 'the first serialisation lists class before another attribute, the second lists it '
+                        'last: %r -> %r' % (html, html2))
             return ('second-serialisation', 'getHTML() of the re-parsed tree differs: %r -> %r' % (html, html2))
         # element level: outerHTML of every element parses back to that element
         for e in all_elements(root)[:12]:
